@@ -38,7 +38,7 @@ def main():
                 m = re.search(r"cp\s+\S*%s\s+(\S+)" % re.escape(f), demo)
                 sub = ""
                 if m:
-                    sub = re.sub(r"^/tmp/seedwt2?-[a-z0-9]+/?", "", m.group(1)).strip("/")
+                    sub = re.sub(r"^/tmp/seedwt[0-9]?-[a-z0-9]+/?", "", m.group(1)).strip("/")
                     if sub.startswith("."):
                         sub = sub.lstrip("./")
                 os.makedirs(os.path.join(wt, sub), exist_ok=True)
